@@ -61,7 +61,7 @@ def commands(ctx, rng, world, count, ncmd, truth=None, np=None, digital_rf=None)
         sym = cmd == "ln" and rng.random() < 0.5
         chs = pick_channels(rng, tree)
         ev = world.run(cmd, o, chs=chs, symbolic=sym, comma=rng.random() < 0.4, float_time=rng.random() < 0.4,
-                       rel_end=rng.random() < 0.25)
+                       rel_end=rng.random() < 0.25, spelling=rng.choice([0, 0, 0, 1, 2, 3]))
         evs.append(ev)
         count[cmd + ("-s" if sym else "")] = count.get(cmd + ("-s" if sym else ""), 0) + 1
         count["files_transferred"] += len(ev["new"])
